@@ -162,17 +162,28 @@ def decrement(prog, run):
             oka = "time[" in s or "linspace" in s
             run.ob("R-decrement", fi.qual, "extrema spacing is measured on the lag (time) axis", oka, f"fd = {fd_v!r}"[:120], witness=repr(fd_v)[:90], file=f, node=a_fn, config=cfg)
         # decrements relative to the first extremum: log(|m[0]| / |m[k]|)
-        dl = [c for c in ast.walk(pf.node) if isinstance(c, ast.Call) and astq.callee_name(prog, pf, c) == "numpy.log" and c.args and isinstance(c.args[0], ast.BinOp) and isinstance(c.args[0].op, ast.Div)]
-        okl = False
+        dl = []
+        for c in ast.walk(pf.node):
+            if isinstance(c, ast.Call) and astq.callee_name(prog, pf, c) == "numpy.log" and c.args:
+                x = astq.expr_at(pf, c, c.args[0])
+                if isinstance(x, ast.BinOp) and isinstance(x.op, ast.Div):
+                    dl.append((c, x))
+        okl = None
         why = "no log of a ratio of extrema found"
-        for c in dl:
-            a, b = c.args[0].left, c.args[0].right
+        for c, x in dl:
+            a, b = x.left, x.right
+            sa_, sb_ = astq.strip_abs(prog, pf, a), astq.strip_abs(prog, pf, b)
             ia = [s_ for s_ in ast.walk(a) if isinstance(s_, ast.Subscript)]
             ib = [s_ for s_ in ast.walk(b) if isinstance(s_, ast.Subscript)]
-            if ia and ib and astq.dump(ia[0].value) == astq.dump(ib[0].value) and isinstance(ia[0].slice, ast.Constant) and ia[0].slice.value == 0 and isinstance(ib[0].slice, ast.Name):
-                okl = astq.strip_abs(prog, pf, a) is not None and astq.strip_abs(prog, pf, b) is not None
-                why = f"`{astq.src(c, 70)}`"
-        run.ob("R-decrement", fi.qual, "decrement k = log(|extremum 0| / |extremum k|)", okl, why, witness=why[:80], file=f, node=dl[0] if dl else None, config=cfg)
+            if ia and ib and astq.dump(ia[0].value) == astq.dump(ib[0].value):
+                first0 = isinstance(ia[0].slice, ast.Constant) and ia[0].slice.value == 0
+                kth = isinstance(ib[0].slice, ast.Name)
+                if first0 and kth:
+                    okl = sa_ is not None and sb_ is not None
+                elif isinstance(ia[0].slice, (ast.Constant, ast.Name, ast.BinOp)) and isinstance(ib[0].slice, (ast.Constant, ast.Name, ast.BinOp)):
+                    okl = False        # a ratio of two extrema of the same list, but not (first, k-th)
+                why = f"`log({astq.src(x, 70)})`"
+        run.ob("R-decrement", fi.qual, "decrement k = log(|extremum 0| / |extremum k|)", okl, why, witness=why[:80], file=f, node=dl[0][0] if dl else None, config=cfg)
 
 
 MUTANTS += [
